@@ -13,15 +13,18 @@ func createLockFile(name string, perm os.FileMode) (LockFile, bool, error) {
 	if _, err := os.Stat(name); err == nil {
 		acquiredExisting = true
 	}
+	verifYield("lock:stat", name)
 	f, err := os.OpenFile(name, os.O_RDWR|os.O_CREATE, perm)
 	if err != nil {
 		return nil, false, err
 	}
+	verifYield("lock:open", name)
 	if err := syscall.Flock(int(f.Fd()), syscall.LOCK_EX|syscall.LOCK_NB); err != nil {
 		if err == syscall.EWOULDBLOCK {
 			err = os.ErrExist
 		}
 		return nil, false, err
 	}
+	verifYield("lock:flock", name)
 	return &osLockFile{f, name}, acquiredExisting, nil
 }
